@@ -22,6 +22,8 @@
 (*    the dictionary of the encoder, on ImplEncoder).  EqMode = "uri"      *)
 (*    (history/MC_Encoding_eq_uri.cfg): an equality that identifies terms  *)
 (*    by URI while the hash stays on the name -- refuted on the pairs.     *)
+(*    HashMode = "extras_order" (history/MC_Encoding_hash_extras_order.cfg)*)
+(*    a Term hash that sees the order in which extra attributes were given.*)
 (***************************************************************************)
 EXTENDS Encoding, TLC, Json
 CONSTANTS MaxVocab, MaxTags, NTags, SmallTags, KeyMode, HashMode,
@@ -45,10 +47,11 @@ Scs(ts) == <<SubSeq(Pat1, 1, Len(ts)), SubSeq(Pat2, 1, Len(ts))>>
 EncCaseP(v, ts, vp, qp) == [kind |-> "enc", vocab |-> v, tags |-> ts, scs |-> Scs(ts), ftags |-> Filtered(v, ts),
                             fscs |-> [s \in DOMAIN Scs(ts) |-> FilteredSc(v, ts, Scs(ts)[s])], vprov |-> vp, qprov |-> qp]
 EncCase(v, ts) == EncCaseP(v, ts, "fresh", "fresh")
-Written == {"fresh", "explicit_defaults"}
+Written == {"fresh", "explicit_defaults", "extras_ab", "extras_ba"}
 
 PairCase(k, x, px, y, py) == [kind |-> "pair", cls |-> k, x |-> x, y |-> y, px |-> px, py |-> py]
-PartnerProvs(px) == IF WideProv THEN {Fresh, Prov("deep_copy", 0), Prov("revalidate", 0), px} ELSE {Fresh, px}
+PartnerProvs(px) == (IF WideProv THEN {Fresh, Prov("deep_copy", 0), Prov("revalidate", 0), px} ELSE {Fresh, px}) \cup
+                    (IF px = ExtrasAB THEN {ExtrasBA} ELSE IF px = ExtrasBA THEN {ExtrasAB} ELSE {})
 
 Key(u) == CASE KeyMode = "term_value"  -> <<UTag[u][1], UTag[u][2]>>
             [] KeyMode = "name_value"  -> <<TermName[UTag[u][1]], UTag[u][2]>>
@@ -56,14 +59,16 @@ Key(u) == CASE KeyMode = "term_value"  -> <<UTag[u][1], UTag[u][2]>>
             [] KeyMode = "value"       -> <<UTag[u][2]>>
 \* a python dict finds an equal key only under an equal hash; control HashMode = "fields_set": the hash of a term depends
 \* on which fields were passed explicitly, so equal tags written differently miss each other
-HashMiss == HashMode = "fields_set" /\ c.vprov # c.qprov
+\* ... control HashMode = "extras_order": the hash sees the order in which a term's extra attributes were given
+HashMiss == HashMode \in {"fields_set", "extras_order"} /\ c.vprov # c.qprov
 Lookup(u) == IF ~HashMiss /\ \E e \in map : e[1] = Key(u) THEN <<(CHOOSE e \in map : e[1] = Key(u))[2]>> ELSE <<>>
 
 Init == /\ \/ \E v \in Vocabs, ts \in TagLists : (Len(v) < MaxVocab \/ Len(ts) <= SmallTags) /\ c = EncCase(v, ts)
            \* tags on terms that carry a URI (equal URI / different name, equal name / different URI) and one without
            \/ \E v \in {w \in SeqsUpTo(UriTags, 2) : Injective(w)}, ts \in SeqsUpTo(UriTags, 2) : c = EncCase(v, ts)
            \/ \E v \in Vocabs, ts \in TagLists : \E vp \in Written, qp \in Written :
-                 Len(v) <= 2 /\ Len(ts) <= ProvTags /\ <<vp, qp>> # <<"fresh", "fresh">> /\ c = EncCaseP(v, ts, vp, qp)
+                 Len(v) <= 2 /\ Len(ts) <= ProvTags /\ <<vp, qp>> # <<"fresh", "fresh">> /\ SameContent(vp, qp)
+                 /\ c = EncCaseP(v, ts, vp, qp)
            \/ \E k \in 1..Len(ClassNames) : \E x \in Objects(k), y \in Objects(k) :
                  (k # 1 \/ DiffCount(x, y) <= 2) /\ c = PairCase(k, x, Fresh, y, Fresh)      \* Term: at most two fields apart
            \/ \E k \in 1..Len(ClassNames) : \E x \in Objects(k), y \in Objects(k) :
@@ -116,8 +121,15 @@ FinalHash(who, x) == IF HashMode = "memo"
                      ELSE IF HashMode = "fields_set"      \* Term / Tag / Feature: the hash also sees how the term was written
                      THEN HashKey("code", c.cls, x, who) \o
                           (IF c.cls <= 3 THEN <<(IF who = 1 THEN c.px ELSE c.py) = Explicit>> ELSE <<>>)
+                     ELSE IF HashMode = "extras_order"    \* ... or the order in which its extra attributes were given
+                     THEN HashKey("code", c.cls, x, who) \o
+                          (LET m == (IF who = 1 THEN c.px ELSE c.py).mode
+                           IN  IF c.cls <= 3 /\ HasExtras(m) THEN <<m>> ELSE <<>>)
                      ELSE HashKey(HashMode, c.cls, x, who)
-ImplHashSound == (~IsEnc /\ pc = "done") => (EqUnder(EqMode, c.cls, c.x, c.y) => FinalHash(1, c.x) = FinalHash(2, c.y))
+\* model equality of the two objects: equal vectors and, where the object is or directly holds a Term (classes 1..3),
+\* the same content of extra attributes; for the other classes the hash is the uuid, a field of the vector
+PairEq == EqUnder(EqMode, c.cls, c.x, c.y) /\ (c.cls <= 3 => SameContent(c.px.mode, c.py.mode))
+ImplHashSound == (~IsEnc /\ pc = "done") => (PairEq => FinalHash(1, c.x) = FinalHash(2, c.y))
 (* laws of Req, once per case *)
 Laws == (IsEnc /\ pc = "cls" /\ i = 1) =>
            /\ LawRoundTrip(c.vocab) /\ LawEncodeIff(c.vocab) /\ LawOOV(c.vocab, c.tags)
